@@ -4,6 +4,7 @@ import (
 	"encoding/json"
 	"fmt"
 	"sort"
+	"sync/atomic"
 
 	"github.com/free5gc/ike/security"
 )
@@ -132,7 +133,7 @@ type SA struct {
 	Keys  *RawKeys
 	Obj   [2]*security.IKESAKey // long-lived object of endpoint I (0) and R (1)
 	Spy   [2]*security.IKESAKey // spied views of the same objects
-	Log   *spyLog
+	Log   atomic.Pointer[spyLog]
 	OK    bool
 }
 
